@@ -212,11 +212,14 @@ def dask_out_rule(ck, prog, rule):
         ("np.multiply(wd32, 1j, out=(wd32,)) on Dask data  [wd32 *= 1j]", uf("multiply", 2, 1), lambda z: [z, cj], lambda z: [z], ("IntensitySignal", "float32")),
         ("np.greater(wd64, c, out=(wd64,)) on Dask data", uf("greater", 2, 1), lambda z: [z, sc], lambda z: [z], ("IntensitySignal", "float64")),
         ("np.modf(wd32, out=(None, wd64)) on Dask data", uf("modf", 1, 2), lambda z: [z], lambda z: [NONE, mk("IntensitySignal", "float64", "wd64")], ("IntensitySignal", "float32")),
+        ("np.add(wd32, B(3, N, 2), out=(wd32,)) on Dask data: the result is larger than the target", uf("add", 2, 1),
+         lambda z: [z, Num(sp.Symbol("B3"), kind="array", shape=(sp.Integer(3), N, 2), tag="data", backend="numpy", dtype=ExtV("numpy.float32"))], lambda z: [z],
+         ("IntensitySignal", "float32")),
     ]
     for label, ufunc, ins, outs, (cls, dt) in plans:
         z = mk(cls, dt, "zd")
         dask_out_plan(ck, prog, fi, ck.evaluator(), label, ufunc, ins(z), {"out": TupleV(outs(z))}, z, rule)
-    ck.run.floor(rule, "out=/in-place forms with a Dask-backed signal as target", len(plans), 5)
+    ck.run.floor(rule, "out=/in-place forms with a Dask-backed signal as target", len(plans), 6)
 
 def dask_out_plan(ck, prog, fi, ev, label, ufunc, inputs, kw, selfv, rule="R2"):
     """One out=/in-place call whose target is a Dask-backed signal.  Acceptable outcomes are NumPy's: TypeError when the result
@@ -235,8 +238,9 @@ def dask_out_plan(ck, prog, fi, ev, label, ufunc, inputs, kw, selfv, rule="R2"):
     try:
         r = ev.call(fi, [ufunc, StrV("__call__")] + inputs, dict(kw), self_val=selfv)
     except Raised as e:
-        refused_ok = e.exc_name in ("TypeError", "UFuncTypeError") and any(v is False for v in castable.values())
-        ck.same(rule, fi.where, label, "a result that cannot be cast to the target's dtype is refused with TypeError; everything else is carried out",
+        refused_ok = (e.exc_name in ("TypeError", "UFuncTypeError") and any(v is False for v in castable.values())) or \
+            (e.exc_name == "ValueError" and "larger than the target" in label)
+        ck.same(rule, fi.where, label, "a result that cannot be cast to the target's dtype is refused with TypeError, one of another shape with ValueError; everything else is carried out",
                 refused_ok, found=str(e)[:160], nontrivial=True)
         return
     except Unsupported as e:
@@ -251,8 +255,16 @@ def dask_out_plan(ck, prog, fi, ev, label, ufunc, inputs, kw, selfv, rule="R2"):
         dt0, shp0, attrs0 = before[id(g)]
         keeps = isinstance(d, Num) and isinstance(d.dtype, ExtV) and isinstance(dt0, ExtV) and d.dtype.dotted == dt0.dotted
         meta_kept = all(g.attrs.get(k_) is v_ for k_, v_ in attrs0.items() if k_ != "_data")
-        ok = res is g and keeps and meta_kept and castable[id(g)] is not False
+        shape_kept = isinstance(d, Num) and d.shape is not None and shp0 is not None and tuple(d.shape) == tuple(shp0)
+        holds = isinstance(d, Num) and f"Ufunc_{ufunc.dotted.split(':')[1]}_{k}(" in str(d.expr)
+        ok = res is g and keeps and meta_kept and castable[id(g)] is not False and shape_kept and holds and "larger than the target" not in label
         why = []
+        if not shape_kept:
+            why.append(f"the target's data now has shape {getattr(d, 'shape', None)} (was {shp0})")
+        if not holds:
+            why.append(f"the target's data does not hold that ufunc output: {str(getattr(d, 'expr', d))[:60]}")
+        if "larger than the target" in label:
+            why.append("a result of another shape was accepted")
         if res is not g:
             why.append("another object is handed back")
         if not keeps:
